@@ -346,6 +346,13 @@ pub fn run_c03(tier: Tier) -> Report {
                     if crate::util::last_snap(&d.st) != before {
                         rep.violation("C03/bytecut-err-changed-picture", format!("{}: cut at byte {cut} rejected but last picture changed", describe(p)), d.replay("byte-cut"));
                     }
+                    // a following picture with every macroblock not coded must be an exact copy of the
+                    // reference - nothing of the rejected picture may survive
+                    let skip = Pic { hdr: shdr(32, 32, 1, 9, 7, 0), mbs: vec![Mb::NotCoded; 4] };
+                    if let Err(f) = d.step(&skip, "C03", &mut st) {
+                        rep.violation(&format!("C03/not-coded-after-rejected-picture[{}]", f.sig.rsplit('/').next().unwrap_or("")), format!("{}: cut at byte {cut} (rejected), then an all-not-coded picture: {}", describe(p), f.what), d.replay("byte-cut then all-not-coded"));
+                    }
+                    rep.add_transitions(1);
                 }
                 crate::util::Outcome::Ok => {
                     let m = crate::refdec::decode(&q, d.mref.as_ref()).unwrap();
